@@ -5,6 +5,7 @@ import ChythonModel.Proofs.C09SearchR
 import ChythonModel.Proofs.C09Layout
 import ChythonModel.Proofs.C09Faithful
 import ChythonModel.Proofs.C09Top
+import ChythonModel.Proofs.C09Final
 /-!
 # C09 — compiled (bit-mask) matcher ≡ reference matcher: property theorems
 
@@ -270,20 +271,107 @@ theorem component_search_eq {q : LQuery} {m : LMol} {cl : Iso.Closures} {lq : Li
     getMappingC cm cq (scopeArray m cand) = Iso.getMapping (envOfP q m cl lq cand) :=
   getMappingC_eq_python c cand hpairs
 
-/-- **`cython_search_eq_python_search`** — the property, end to end, on the model: for every non-empty well-formed query (`QueryOK`,
-    `q.graph.WF`) and molecule (`MolOK`) whose (query atom, atom) pairs lie in the documented domain, every list of target components,
-    every scope and both `automorphism_filter` settings: whenever compiling the query and the structure does not raise,
-    `query.get_mapping(mol)` with the extension installed returns exactly what `query.get_mapping(mol, _cython=False)` returns —
-    the same mappings in the same order (so in particular the same set). `hcl`: the closures dict has distinct keys
-    (`compile_closure_keys_nodup` below discharges it for C07's `compileQuery`). -/
-theorem cython_search_eq_python_search (q : LQuery) (m : LMol) (tComps : List (List Nat)) (scope : Option (List Nat)) (autoF : Bool)
-    (hm : MolOK m) (hq : QueryOK q) (hqwf : q.graph.WF = true) (hqne : q.atoms ≠ [])
+/-- `_compile_query` never records two closure lists for the same atom (keys of the closures dict are distinct) -/
+theorem compile_closure_keys_distinct (g : Iso.Graph) (comps : List (List Iso.Step)) (cl : Iso.Closures)
+    (h : Iso.compileQuery g = some (comps, cl)) : (cl.map (·.1)).Nodup :=
+  compile_closure_keys_nodup g comps cl h
+
+/-- `_cython_compiled_structure` does not raise on a molecule in the shape `MolOK` (`_bonds` keyed like `_atoms`, distinct numbers,
+    neighbours are atoms, bond orders 1/2/3/4/8, atoms in `ADom`) whose sizes fit the 32-bit fields -/
+theorem structure_encoder_total (m : LMol) (hm : MolOK m) (hs : MolSmall m) : ∃ cm, encStructure m = .ok cm :=
+  encStructure_total m hm hs
+
+/-- `_cython_compiled_query` does not raise for any component of an accepted linearisation of a well-formed query in the shape
+    `QueryOK` whose sizes fit the 32-bit fields -/
+theorem query_encoder_total (q : LQuery) (hq : QueryOK q) (hqwf : q.graph.WF = true) (comps : List (List Iso.Step)) (cl : Iso.Closures)
+    (hCO : ChythonModel.Proofs.C07.CompiledOK q.graph comps cl) (hcl : (cl.map (·.1)).Nodup) (hs : QuerySmall q cl)
+    (lq : List Iso.Step) (hlq : lq ∈ comps) : ∃ cq, encComponent q cl lq = .ok cq :=
+  encComponent_total q hq hqwf comps cl hCO hcl hs lq hlq
+
+/-- the end-to-end equality whenever compiling the query and the structure did not raise (no size hypotheses) -/
+theorem cython_search_eq_python_search_of_compiled (q : LQuery) (m : LMol) (tComps : List (List Nat)) (scope : Option (List Nat))
+    (autoF : Bool) (hm : MolOK m) (hq : QueryOK q) (hqwf : q.graph.WF = true) (hqne : q.atoms ≠ [])
     (hpairs : ∀ p ∈ q.atoms, ∀ r ∈ m.atoms, NoHeavyClash p.2 r.2 ∧ HKnown p.2 r.2)
     (comps : List (List Iso.Step)) (cl : Iso.Closures) (hcq : Iso.compileQuery q.graph = some (comps, cl))
-    (hcl : (cl.map (·.1)).Nodup)
     (cqs : List CQuery) (henq : encQuery q comps cl = .ok cqs) (cm : CMol) (hems : encStructure m = .ok cm) :
     cythonPath q m tComps scope autoF = pythonPath q m tComps scope autoF :=
-  cythonPath_eq_pythonPath q m tComps scope autoF hm hq hqwf hqne hpairs comps cl hcq hcl cqs henq cm hems
+  cythonPath_eq_pythonPath q m tComps scope autoF hm hq hqwf hqne hpairs comps cl hcq
+    (compile_closure_keys_nodup q.graph comps cl hcq) cqs henq cm hems
+
+/-- **`cython_search_eq_python_search`** — the property, end to end, on the models the driver runs: for every non-empty well-formed
+    query (`QueryOK`, `q.graph.WF`) and molecule (`MolOK`) with sizes fitting the 32-bit buffer fields whose (query atom, atom) pairs
+    lie in the documented domain (`NoHeavyClash`, `HKnown`; atoms in `ADom`, query atoms in `QDom`), for every list of target
+    components, every searching scope and both `automorphism_filter` settings,
+    `query.get_mapping(mol)` with the extension installed (`cythonPath`: both encoders, the `.pyx` matcher, the shared component /
+    permutation / `lazy_product` / filter glue) neither raises nor differs from `query.get_mapping(mol, _cython=False)`
+    (`pythonPath`: C07's model of `_get_mapping` with C08's `pyEq` / `bondEq`): the same mappings in the same order — in particular the
+    same set of mappings, which is what the property states. -/
+theorem cython_search_eq_python_search (q : LQuery) (m : LMol) (tComps : List (List Nat)) (scope : Option (List Nat)) (autoF : Bool)
+    (hm : MolOK m) (hms : MolSmall m) (hq : QueryOK q) (hqwf : q.graph.WF = true) (hqne : q.atoms ≠ [])
+    (hqs : ∀ comps cl, Iso.compileQuery q.graph = some (comps, cl) → QuerySmall q cl)
+    (hpairs : ∀ p ∈ q.atoms, ∀ r ∈ m.atoms, NoHeavyClash p.2 r.2 ∧ HKnown p.2 r.2) :
+    cythonPath q m tComps scope autoF = pythonPath q m tComps scope autoF :=
+  cythonPath_eq_pythonPath_total q m tComps scope autoF hm hms hq hqwf hqne hqs hpairs
+
+/-! a non-trivial instance of the hypotheses of `cython_search_eq_python_search`: the query `[C;D2]-[O;h1]` and ethanol -/
+
+def exQ : LQuery :=
+  { atoms := [(1, { kind := .element 6 none, neighbors := [2] }), (2, { kind := .element 8 none, implH := [1] })],
+    adj := [(1, [(2, { orders := [1] })]), (2, [(1, { orders := [1] })])] }
+
+def exC1 : MAtom := { z := 6, neighbors := 1, implH := some 3 }
+def exC2 : MAtom := { z := 6, neighbors := 2, implH := some 2, heteroatoms := 1 }
+def exO : MAtom := { z := 8, neighbors := 1, implH := some 1 }
+
+def exM : LMol :=
+  { atoms := [(1, exC1), (2, exC2), (3, exO)],
+    adj := [(1, [(2, ⟨1, false⟩)]), (2, [(1, ⟨1, false⟩), (3, ⟨1, false⟩)]), (3, [(2, ⟨1, false⟩)])] }
+
+private theorem exAD (a : MAtom) (mdl : Nat) (h : a = exC1 ∨ a = exC2 ∨ a = exO) (hm : mdl = 12 ∨ mdl = 16) : ADom mdl a := by
+  rcases h with rfl | rfl | rfl <;> rcases hm with rfl | rfl <;>
+    (constructor <;> simp [exC1, exC2, exO, isoTruthy, hOr, sHNone])
+
+private theorem exHyps : MolOK exM ∧ MolSmall exM ∧ QueryOK exQ ∧ exQ.graph.WF = true ∧ exQ.atoms ≠ [] := by
+  refine ⟨⟨by decide, by decide, by decide, by decide, ?_, ?_⟩, ⟨by decide, by decide, by decide⟩, ⟨?_, ?_⟩, by decide, by decide⟩
+  · intro r hr kb hkb
+    simp only [exM, List.mem_cons, List.mem_nil_iff, or_false] at hr
+    rcases hr with rfl | rfl | rfl <;> simp only [List.mem_cons, List.mem_nil_iff, or_false] at hkb <;>
+      (first | (rcases hkb with rfl | rfl <;> exact Or.inl rfl) | (subst hkb; exact Or.inl rfl))
+  · intro p hp
+    simp only [exM, List.mem_cons, List.mem_nil_iff, or_false] at hp
+    rcases hp with rfl | rfl | rfl
+    · exact ⟨12, by decide, exAD _ _ (Or.inl rfl) (Or.inl rfl)⟩
+    · exact ⟨12, by decide, exAD _ _ (Or.inr (Or.inl rfl)) (Or.inl rfl)⟩
+    · exact ⟨16, by decide, exAD _ _ (Or.inr (Or.inr rfl)) (Or.inr rfl)⟩
+  · intro p hp
+    simp only [exQ, List.mem_cons, List.mem_nil_iff, or_false] at hp
+    rcases hp with rfl | rfl <;> (constructor <;> simp)
+  · intro r hr kb hkb x hx
+    simp only [exQ, List.mem_cons, List.mem_nil_iff, or_false] at hr
+    rcases hr with rfl | rfl <;> simp only [List.mem_cons, List.mem_nil_iff, or_false] at hkb <;> subst hkb <;>
+      (simp at hx; subst hx; exact Or.inl rfl)
+
+
+private theorem exPairs : ∀ p ∈ exQ.atoms, ∀ r ∈ exM.atoms, NoHeavyClash p.2 r.2 ∧ HKnown p.2 r.2 := by
+  intro p hp r hr
+  simp only [exQ, exM, List.mem_cons, List.mem_nil_iff, or_false] at hp hr
+  rcases hp with rfl | rfl <;> rcases hr with rfl | rfl | rfl <;>
+    exact ⟨Or.inl ⟨by decide, by intro z hz; simp [kindElems] at hz; subst hz; decide⟩, Or.inl rfl⟩
+
+private theorem exSmall : ∀ comps cl, Iso.compileQuery exQ.graph = some (comps, cl) → QuerySmall exQ cl := by
+  intro comps cl h
+  have hv : Iso.compileQuery exQ.graph = some ([[⟨1, none⟩, ⟨2, some 1⟩]], [(2, [])]) := by decide
+  rw [hv] at h
+  simp only [Option.some.injEq, Prod.mk.injEq] at h
+  obtain ⟨_, rfl⟩ := h
+  exact ⟨by decide, by decide, by decide⟩
+
+/-- the theorem applied to `[C;D2]-[O;h1]` on ethanol, and the (non-empty) value both paths return -/
+example : cythonPath exQ exM [[1, 2, 3]] none true = pythonPath exQ exM [[1, 2, 3]] none true ∧
+    pythonPath exQ exM [[1, 2, 3]] none true = .ok [[(1, 2), (2, 3)]] :=
+  ⟨cython_search_eq_python_search exQ exM [[1, 2, 3]] none true exHyps.1 exHyps.2.1 exHyps.2.2.1 exHyps.2.2.2.1 exHyps.2.2.2.2 exSmall exPairs,
+   by decide⟩
+
 
 /-- the full-strength statement the property text asks for ("every element 1–118", any hydrogen state, any `h` value the query API
     accepts, any ring size): **false** for the current code — `Findings/C09.lean` proves `¬ MaskEqPyEqFull` from four witnesses
